@@ -69,6 +69,7 @@ class Acc:
         self.caps: dict[str, str] = {}
         self.notes: dict = {}
         self.outcomes: dict[str, int] = {}
+        self.emitted: list = []  # free-form results returned by workers (e.g. BFS successors)
 
     # -- counters -------------------------------------------------------
     def add(self, key: str, n: int = 1):
@@ -108,6 +109,9 @@ class Acc:
     def note(self, key: str, value):
         self.notes[key] = _jsonable(value)
 
+    def emit(self, obj):
+        self.emitted.append(obj)
+
     def violation(self, key: str, detail, case=None):
         """Record a violation. `key` identifies the failing input / call site / history."""
         if key not in self.violations:
@@ -127,6 +131,7 @@ class Acc:
         for k, v in other.violations.items():
             self.violations.setdefault(k, v)
         self.caps.update(other.caps)
+        self.emitted.extend(other.emitted)
         for k, v in other.notes.items():
             self.notes.setdefault(k, v)
 
@@ -168,12 +173,34 @@ class Ctx(Acc):
         if chunksize is None:
             chunksize = max(1, min(64, len(items) // (workers * 8) or 1))
         chunks = [items[i:i + chunksize] for i in range(0, len(items), chunksize)]
+        pool = _get_pool(self.workers)
+        for acc in pool.imap_unordered(_run_chunk, [(fn, ch) for ch in chunks]):
+            if isinstance(acc, tuple):
+                raise HarnessError('worker failed:\n' + acc[1])
+            self.merge(acc)
+
+
+_POOL = None
+
+
+def _get_pool(workers):
+    """One long-lived pool of forked workers per check process (forked at the first pmap call, i.e. after the check
+    has installed its patches); long-lived workers can keep expensive fixtures between tasks."""
+    global _POOL
+    if _POOL is None:
+        import atexit
         mp = multiprocessing.get_context('fork')
-        with mp.Pool(workers) as pool:
-            for acc in pool.imap_unordered(_run_chunk, [(fn, ch) for ch in chunks]):
-                if isinstance(acc, tuple):
-                    raise HarnessError('worker failed:\n' + acc[1])
-                self.merge(acc)
+        _POOL = mp.Pool(workers)
+        atexit.register(_close_pool)
+    return _POOL
+
+
+def _close_pool():
+    global _POOL
+    if _POOL is not None:
+        _POOL.terminate()
+        _POOL.join()
+        _POOL = None
 
 
 def _run_chunk(arg):
